@@ -127,19 +127,65 @@ def sib_fragment_node_names(repo, tier="quick"):
 
 def exc_fragment_strict(repo, tier="quick"):
     """D18: a ring index that is opened and never closed inside an all-atom fragment has to be rejected like in the base
-    graph.  pysmiles reports it only in strict mode."""
+    graph.  pysmiles reports it only in strict mode, which the package cannot use (annotated and wildcard atoms); with
+    strict=False the check has to be made by the package: the ring markers of the fragment text are counted per index and an
+    index with an odd count raises SyntaxError, on every path to the lenient read (repaired in /repo: "fix: a ring index that
+    is never closed in an all-atom fragment is rejected")."""
     fi = repo.function("pysmiles_utils:read_fragment_smiles")
-    fl = fi.flow
+    fl, cfg = fi.flow, fi.cfg
     oid = "EXC.X5-fragment-smiles"
     calls = fl.calls_to("pysmiles.read_smiles")
     need(calls, "anchor vanished: read_fragment_smiles no longer calls pysmiles.read_smiles", fi)
     obs = []
+    # the parity guard: a set toggled per RING_NUM token of the fragment text, and `if <set>: raise SyntaxError` behind the loop
+    guards = []          # cfg ids of `if <parity set>` nodes whose true arm always raises SyntaxError
+    unknown_ring_checks = []
+    for n in cfg.nodes:
+        if n.kind != "for":
+            continue
+        itc = None
+        for sub in ast.walk(n.ast.iter):
+            if isinstance(sub, ast.Call):
+                t = repo.resolve_call(fi, sub)
+                if t is not None and t.kind == "ext" and t.name.endswith("_tokenize"):
+                    itc = sub
+        if itc is None:
+            continue
+        toggled = set()
+        for sub in ast.walk(n.ast):
+            if isinstance(sub, ast.If) and "RING_NUM" in ast.unparse(sub.test):
+                for x in ast.walk(sub):
+                    if isinstance(x, ast.AugAssign) and isinstance(x.op, ast.BitXor) and isinstance(x.target, ast.Name):
+                        toggled.add(x.target.id)
+                    if isinstance(x, ast.Assign) and len(x.targets) == 1 and isinstance(x.targets[0], ast.Name) and isinstance(x.value, ast.BinOp) and \
+                            isinstance(x.value.op, ast.BitXor) and any(isinstance(s_, ast.Name) and s_.id == x.targets[0].id for s_ in (x.value.left, x.value.right)):
+                        toggled.add(x.targets[0].id)
+                    if isinstance(x, ast.Call) and isinstance(x.func, ast.Attribute) and x.func.attr == "symmetric_difference_update" and isinstance(x.func.value, ast.Name):
+                        toggled.add(x.func.value.id)
+        if not toggled:
+            unknown_ring_checks.append(n)
+            continue
+        for m in cfg.nodes:
+            if m.kind == "if" and isinstance(m.ast.test, ast.Name) and m.ast.test.id in toggled and cfg.path_exists(n.id, m.id):
+                from .exc import arm_always_raises
+                ok, _why = arm_always_raises(fi, m, "T", {"SyntaxError"})
+                if ok:
+                    guards.append(m.id)
     for call, nid, _ in calls:
         kw = dict(fl.canon(call, nid)[4])
         strict = kw.get("strict", ("const", True))
-        (obs.append(ob_fail(oid, fi, call, construct="pysmiles.read_smiles(..., strict=False)", instance="strict",
-                            reason="malformed fragment SMILES are not rejected: {[#A]}.{#A=C1CC} (dangling ring index) resolves to an open chain")) if strict == ("const", False) else
-         obs.append(ob_ok(oid, fi, call, construct="pysmiles.read_smiles(..., strict=%s)" % show(strict), instance="strict", reason="pysmiles reports malformed fragments")))
+        if strict != ("const", False):
+            obs.append(ob_ok(oid, fi, call, construct="pysmiles.read_smiles(..., strict=%s)" % show(strict), instance="strict", reason="pysmiles reports malformed fragments"))
+        elif guards and any(cfg.dominates(g, nid) for g in guards):
+            obs.append(ob_ok(oid, fi, call, construct="ring markers counted per index, odd count raises SyntaxError, in front of read_smiles(..., strict=False)", instance="strict",
+                             reason="a ring index that is never closed is rejected before the lenient reader drops it"))
+        elif unknown_ring_checks or guards:
+            from ..report import ob_undecided
+            obs.append(ob_undecided(oid, fi, call, construct="a ring check of a form the rule does not know in front of read_smiles(..., strict=False)", instance="strict",
+                                    reason="the fragment text is tokenised, but the rule cannot see that an unclosed ring index raises SyntaxError on every path to the read"))
+        else:
+            obs.append(ob_fail(oid, fi, call, construct="pysmiles.read_smiles(..., strict=False)", instance="strict",
+                               reason="malformed fragment SMILES are not rejected: {[#A]}.{#A=C1CC} (dangling ring index) resolves to an open chain"))
     return obs
 
 
